@@ -36,6 +36,7 @@ type request struct {
 	Call, Ret int64
 	Admitted  bool
 	Err       string
+	ErrClass  string // simnode.ErrClass of the refusal (decided on the error value, not on its text)
 	Selected  []string
 }
 
@@ -317,6 +318,7 @@ func oneRound(rng *rand.Rand, pattern string, idx int) (rep roundReport) {
 				rq.Admitted = err == nil
 				if err != nil {
 					rq.Err = err.Error()
+					rq.ErrClass = sn.ErrClass(err)
 				}
 			case "select":
 				ins, _, _, err := s.N.State.SelectUtxos(rq.Addr, big.NewInt(rq.Amount), true, false)
@@ -396,7 +398,7 @@ func oneRound(rng *rand.Rand, pattern string, idx int) (rep roundReport) {
 				break
 			}
 		}
-		if !rq.Admitted && rq.Err == "utxo can not be spent more than once" {
+		if !rq.Admitted && rq.ErrClass == "contention" {
 			rep.Contention++
 			justified := false
 			for j, other := range reqs {
@@ -465,7 +467,7 @@ func oneRound(rng *rand.Rand, pattern string, idx int) (rep roundReport) {
 				continue
 			}
 			rep.QuiescentRetries++
-			if err := s.N.State.DoTx(sn.CloneTx(rq.Tx)); err != nil && err.Error() == "utxo can not be spent more than once" {
+			if err := s.N.State.DoTx(sn.CloneTx(rq.Tx)); sn.IsContention(err) {
 				problem("serial|contention-refusal-at-quiescence", "request %d (%s), offered again after every request of the round had returned, is refused for lock contention: a finished request left a key lock behind", i, rq.Label)
 				break
 			}
@@ -516,8 +518,8 @@ func checkLinearizable(reqs []*request, base *refmodel.State, height int64, prob
 		}
 		txs[i] = rq.Tx
 		ops = append(ops, porcupine.Operation{ClientId: len(ops), Input: linIn{i}, Call: rq.Call,
-			Output: linOut{admitted: rq.Admitted, contention: rq.Err == "utxo can not be spent more than once",
-				already: rq.Err == "this transaction is in unconfirmed state"}, Return: rq.Ret})
+			Output: linOut{admitted: rq.Admitted, contention: rq.ErrClass == "contention",
+				already: rq.ErrClass == "already-pending"}, Return: rq.Ret})
 	}
 	if len(ops) == 0 {
 		return "none"
